@@ -193,8 +193,8 @@ fn table<const N: usize>(idx: usize) -> [u8; N] {
 
 struct Ctx {
     ops: Shards,
-    /// events of the two calls with a known finding (buffer_unary_not at offsets that are not a multiple of 64,
-    /// set_bits into a destination range that is not zero): kept apart so that the main trace has no KNOWN lines
+    /// events of the call with a known finding (set_bits into a destination range that is not zero): kept apart
+    /// so that the main trace has no KNOWN lines
     kf: Shards,
     bld: Shards,
     rng: Rng,
@@ -297,8 +297,7 @@ fn un_case(c: &mut Ctx, off: usize, n: usize, pat: usize) {
                 "rem": words_bits(std::iter::once(bc.remainder_bits())), "padded": bc.iter_padded().count(),
                 "ulead": u.lead_padding(), "utrail": u.trailing_padding(), "uw": words_bits(u.iter()),
                 "not": logical(&!&bb),
-                "hb": off % 64 == 0,
-                "bnot": if off % 64 == 0 { first_bits(buffer_unary_not(&p.buf, off, n).as_slice(), n) } else { vec![] },
+                "bnot": first_bits(buffer_unary_not(&p.buf, off, n).as_slice(), n),
                 "hnot": first_bits(bitwise_unary_op_helper(&p.buf, off, n, |x| !x).as_slice(), n),
                 "un": logical(&BooleanBuffer::from_bitwise_unary_op(bytes, off, n, w1(f1))),
                 "hun": first_bits(bitwise_unary_op_helper(&p.buf, off, n, w1(f1)).as_slice(), n),
@@ -311,19 +310,6 @@ fn un_case(c: &mut Ctx, off: usize, n: usize, pat: usize) {
                 "d0": d0, "d1": d1,
             })
         });
-    }
-    if off % 64 != 0 {
-        // buffer_unary_not at the remaining offsets (known finding): own trace
-        for run in 1..=2usize {
-            let (a, sur) = (a.clone(), sur.clone());
-            let sh = if run == 1 { 0 } else { sh2 };
-            c.record_to(true, "bnot", json!({"off": off, "n": n, "run": run}), move || {
-                let p = place(&a, off, extra, sh, &sur, run == 2);
-                json!({"op": "bnot", "run": run, "off": off, "n": n, "sh": sh, "a": b01(&a), "d0": all_bits(p.bytes()),
-                       "bnot": first_bits(buffer_unary_not(&p.buf, off, n).as_slice(), n)})
-            });
-        }
-        c.kf.next_episode();
     }
     c.cases += 1;
     c.ops.next_episode();
@@ -885,7 +871,7 @@ fn bigv_case(c: &mut Ctx, off: usize, n: usize, kind: usize) {
                 "rem": words_bits(std::iter::once(bc.remainder_bits())),
                 "ulead": u.lead_padding(), "utrail": u.trailing_padding(), "uw_r": rle(&words_bits(u.iter())),
                 "iter_r": rle(&BitIterator::new(bytes, off, n).map(|x| x as u8).collect::<Vec<u8>>()),
-                "not_r": rle(&logical(&!&bb)), "hnot_r": pk(&bitwise_unary_op_helper(&p.buf, off, n, |x| !x)),
+                "not_r": rle(&logical(&!&bb)), "bnot_r": pk(&buffer_unary_not(&p.buf, off, n)), "hnot_r": pk(&bitwise_unary_op_helper(&p.buf, off, n, |x| !x)),
                 "un_r": rle(&logical(&BooleanBuffer::from_bitwise_unary_op(bytes, off, n, w1(f1)))),
                 "hun_r": pk(&bitwise_unary_op_helper(&p.buf, off, n, w1(f1))),
                 "sliced_r": pk(&bb.sliced()), "bsl_r": pk(&p.buf.bit_slice(off, n)),
@@ -907,10 +893,10 @@ fn bigv_case(c: &mut Ctx, off: usize, n: usize, kind: usize) {
 
 /// minimal reproductions of the two known findings (`c19 repro`)
 fn repro() {
-    // buffer_unary_not ignores offset % 64: NOT of bits 1..5 of 0b0000_1111 is 0,0,0,1
+    // (fixed finding C19-buffer-unary-not-offset) NOT of bits 1..5 of 0b0000_1111 is 0,0,0,1
     let b = Buffer::from(vec![0b0000_1111u8]);
     let r = buffer_unary_not(&b, 1, 4);
-    println!("buffer_unary_not(&[0b00001111], 1, 4) first 4 bits = {:?} (NOT of input bits 1..5 = [0, 0, 0, 1])", first_bits(r.as_slice(), 4));
+    println!("buffer_unary_not(&[0b00001111], 1, 4) first 4 bits = {:?} (expected [0, 0, 0, 1])", first_bits(r.as_slice(), 4));
     // set_bits ORs into a destination range that is not zero
     let mut dst = [0b1111_1111u8];
     let zeros = set_bits(&mut dst, &[0u8], 2, 0, 3);
